@@ -37,7 +37,7 @@ ASSUMPTIONS = ["control characters forbidden by XML 1.0 are judged under C01's h
 def plan(tier, seed):
     n = 1800 if tier == "quick" else 26000
     return {"shards": 16, "timeout": 900 if tier == "quick" else 3600, "n": n,
-            "floors": {"cells_recovered": n * 8, "skeletons_compared": n // 2, "outval_hook_evals": 200, "distinct": 100}}
+            "floors": {"cells_recovered": n * 8, "skeletons_compared": n // 2, "outval_hook_evals": 200, "distinct": 100, "instance_word_forms": 80}}
 
 
 def no_instance(fr):
@@ -526,6 +526,52 @@ def repeated_text_forms(ctx):
                     break
 
 
+def instance_word_forms(ctx):
+    """Natural-language text around (and instead of) instance() expressions in labels and hints: an expression written in the text is shown as one output
+    with exactly the expression as its value; the words next to it ('and', 'or', 'mod', 'div', a comma) and text that merely contains the word
+    ("instance(s)", "instance(", "instance('c')" with no path) stay text."""
+    E1 = "instance('l1')/root/item[name = 'a1']/label"
+    E2 = "instance('l1')/root/item[2]/label"
+    cases = []
+    for w in ("and", "or", "mod", "div", ",", "and then", "or else x", "-", "/ per"):
+        cases.append((f"see {E1} {w} more text", [("t", "see"), ("o", E1), ("t", f"{w} more text")]))
+        cases.append((f"{E1} {w} {E2} end", [("o", E1), ("t", w), ("o", E2), ("t", "end")]))
+    for t in ("How many instance(s) of it?", "call instance( now", "instance('l1') alone", "an instance ( spaced", "instances(2)", "myinstance('x')/root"):
+        cases.append((t, [("t", t)]))
+    cases.append((f"x instance(s) then {E1}", [("t", "x instance(s) then"), ("o", E1)]))
+    cases.append((f"{E1} instance(s)", [("o", E1), ("t", "instance(s)")]))
+    norm = lambda segs: [(k, " ".join(v.split()) if k == "t" else v) for k, v in segs if not (k == "t" and not v.strip())]  # noqa: E731
+    for i, (text, want) in enumerate(cases):
+        if not ctx.mine(i):
+            continue
+        for col in ("label", "hint"):
+            cells = {"label": "N", col: text}
+            f = gen.simple_form([("select_one l1", "s", {"label": "S"}), ("note", "n", cells)], choices={"l1": [{"name": f"a{k}", "label": f"A{k}"} for k in range(3)]})
+            for pretty in (False, True):
+                o = drive.convert_form(f, pretty=pretty)
+                ctx.ctr("instance_word_forms")
+                ctx.case(sig=f"instance-word|{i}|{col}|{pretty}")
+                wit = common.witness(f, klass="instance-word", pretty=pretty)
+                if not o.ok:
+                    ctx.viol(f"instance-word:{col}:refused", f"{text!r}: {o.brief()[:200]}", wit)
+                    continue
+                try:
+                    p = xf.Parsed(o.xform)
+                except xf.XFError as e:
+                    ctx.viol(f"instance-word:{col}:output-not-wellformed", f"{text!r}: {e}", wit)
+                    continue
+                got = None
+                for el in p.body.iter():
+                    if isinstance(el.tag, str) and xf.local(el.tag) == col and el.getparent() is not None and el.getparent().get("ref") == "/data/n":
+                        got = norm(xf.content_segments(el))
+                ctx.ctr("cells_recovered")
+                if got != norm(want):
+                    kind = "text-became-part-of-an-expression" if sum(1 for k, _ in got or [] if k == "o") <= sum(1 for k, _ in want if k == "o") and got != norm(want) and any(k == "o" for k, _ in got or []) else "segments"
+                    if not any(k == "o" for k, _ in want):
+                        kind = "plain-text-became-an-output"
+                    ctx.viol(f"instance-word:{col}:{kind}", f"{col} {text!r} is shown as {got!r}, expected {norm(want)!r}", wit)
+
+
 def loop_text_forms(ctx):
     """Looped questions (begin loop over <list>): every copy shows its own choice's label, per language, hostile characters intact."""
     from .. import looptext
@@ -555,6 +601,7 @@ def locale_children(ctx):
 
 def run_shard(ctx):
     loop_text_forms(ctx)
+    instance_word_forms(ctx)
     if ctx.shard == 0:
         locale_children(ctx)
     from ..hooks import counters, install_outval_hook
@@ -581,6 +628,9 @@ def replay(w):
             return
         if wit.get("klass") == "loop-text":
             loop_text_forms(ctx)  # the family is small and deterministic: run it whole
+            return
+        if wit.get("klass") == "instance-word":
+            instance_word_forms(ctx)
             return
         if wit.get("klass") in ("hook", "repeated"):
             print("hook / repeated-text witness: re-run ./check C06")
